@@ -35,6 +35,7 @@ type scenario struct {
 	T         int    `json:"t"`
 	Cost      int    `json:"cost"`                 // rough cost class: 0 = milliseconds, 1 = tens of ms, 2 = seconds
 	StateOnly bool   `json:"state_only,omitempty"` // only the state-level deviations (C04)
+	BlameOnly bool   `json:"blame_only,omitempty"` // of those, only the delta / chi inconsistencies every honest signer must attribute
 }
 
 // world is a scenario made concrete: the session description plus what the oracles need.
@@ -199,6 +200,10 @@ func scenarios(check string) []scenario {
 	if check == "C04" {
 		// state-level deviations of a presigner (its gamma / k / x / chi / delta shares shifted while its proofs stay valid)
 		l = append(l, scenario{Name: "cmp-presign/n2/t1/state-level", Proto: "cmp-presign", N: 2, T: 1, Cost: 2, StateOnly: true})
+	}
+	if check == "C04" {
+		// n=3: the abort rounds carry honest parties' openings as well; every honest signer must single out the cheater
+		l = append(l, scenario{Name: "cmp-presign/n3/t1/state-level-blame", Proto: "cmp-presign", N: 3, T: 1, Cost: 2, StateOnly: true, BlameOnly: true})
 	}
 	add("cmp-sign", 2, 1, 2)
 	if vkit.Thorough() {
